@@ -844,6 +844,7 @@ func (e *c28Env) r1() {
 
 	var keepLocal, takeRemote []an.Edge
 	nCmp := 0
+	notUnderstood := ""
 	for _, b := range fn.Blocks {
 		if len(b.Instrs) == 0 {
 			continue
@@ -851,6 +852,9 @@ func (e *c28Env) r1() {
 		ifi, ok := b.Instrs[len(b.Instrs)-1].(*ssa.If)
 		if !ok {
 			continue
+		}
+		if all := it.render(fr.eval(ifi.Cond), 2); strings.Contains(all, lv) && strings.Contains(all, rv) && !c28CmpRe.MatchString(strings.TrimSuffix(strings.TrimPrefix(all, "not("), ")")) && !c28CmpRe.MatchString(all) {
+			notUnderstood = all
 		}
 		term, single := fr.eval(ifi.Cond).single()
 		if !single {
@@ -895,8 +899,12 @@ func (e *c28Env) r1() {
 			c.Bad("C28.R1", cons, w.Pos(ifi.Cond.Pos()), "the received capability is taken only when remote.version > local.version: a poll with the same protocol version is discarded")
 		}
 	}
+	if nCmp == 0 && notUnderstood != "" {
+		c.Unknown("C28.R1", name+" version comparison", w.Pos(fn.Pos()), "the two versions are compared in a form the rule does not interpret: "+notUnderstood)
+		return
+	}
 	if nCmp == 0 {
-		c.Bad("C28.R1", name+" version comparison", w.Pos(fn.Pos()), "no ordering comparison between remote.version and local.version guards the result")
+		c.Bad("C28.R1", name+" version comparison", w.Pos(fn.Pos()), "no condition compares remote.version with local.version: the result does not depend on which capability advertises the lower version")
 		return
 	}
 	// nil guards
@@ -914,28 +922,50 @@ func (e *c28Env) r1() {
 		if len(r.Results) != 1 {
 			continue
 		}
-		nRet++
-		val, single := fr.eval(r.Results[0]).single()
 		pos := w.Pos(r.Pos())
-		switch {
-		case single && val == "⟨L⟩":
-			ok := an.EdgesDominate(append(append([]an.Edge{}, keepLocal...), remoteNil...), r.Block())
-			c.Decide(ok, "C28.R1", name+" return of the stored capability", pos,
-				"stored capability kept only under remote.version < local.version (or remote == nil)",
-				"the stored capability is returned on a path that does not pass the edge remote.version < local.version: the most recent poll is dropped although it does not advertise a lower version. Facts: "+an.DescribeFacts(w.FactsDominatingBlock(r.Block())))
-		case single && val == "⟨R⟩":
-			ok := an.EdgesDominate(append(append([]an.Edge{}, takeRemote...), localNil...), r.Block())
-			c.Decide(ok, "C28.R1", name+" return of the received capability", pos,
-				"received capability taken only under !(remote.version < local.version) (or local == nil)",
-				"the received capability is returned on a path that does not exclude remote.version < local.version: a lower-version poll overwrites the stored capability. Facts: "+an.DescribeFacts(w.FactsDominatingBlock(r.Block())))
-		default:
-			c.Unknown("C28.R1", name+" return", pos, "returned value is not exactly one of the two parameters: "+fr.eval(r.Results[0]).String())
+		for _, rc := range c28ExpandReturn(r) {
+			nRet++
+			val, single := fr.eval(rc.vals[0]).single()
+			switch {
+			case single && val == "⟨L⟩":
+				switch {
+				case rc.domAt(append(append([]an.Edge{}, keepLocal...), remoteNil...)):
+					c.OK("C28.R1", name+" return of the stored capability", pos, "stored capability kept only under remote.version < local.version (or remote == nil)")
+				case e.uninterpretedGuard(rc, c28AboutParams(fn, 1, 2)) != "":
+					c.Unknown("C28.R1", name+" return of the stored capability", pos, "the stored capability is returned under the predicate "+e.uninterpretedGuard(rc, c28AboutParams(fn, 1, 2))+", which the rule does not interpret")
+				default:
+					c.Bad("C28.R1", name+" return of the stored capability", pos, "the stored capability is returned on a path that does not pass the edge remote.version < local.version: the most recent poll is dropped although it does not advertise a lower version. Facts: "+an.DescribeFacts(e.factsAt(rc)))
+				}
+			case single && val == "⟨R⟩":
+				switch {
+				case rc.domAt(append(append([]an.Edge{}, takeRemote...), localNil...)):
+					c.OK("C28.R1", name+" return of the received capability", pos, "received capability taken only under !(remote.version < local.version) (or local == nil)")
+				case e.uninterpretedGuard(rc, c28AboutParams(fn, 1, 2)) != "":
+					c.Unknown("C28.R1", name+" return of the received capability", pos, "the received capability is returned under the predicate "+e.uninterpretedGuard(rc, c28AboutParams(fn, 1, 2))+", which the rule does not interpret")
+				default:
+					c.Bad("C28.R1", name+" return of the received capability", pos, "the received capability is returned on a path that does not exclude remote.version < local.version: a lower-version poll overwrites the stored capability. Facts: "+an.DescribeFacts(e.factsAt(rc)))
+				}
+			default:
+				c.Unknown("C28.R1", name+" return", pos, "returned value is not exactly one of the two parameters: "+fr.eval(rc.vals[0]).String())
+			}
 		}
 	}
 	c.AtLeast("C28.R1", "returns of MergeCapabilities", nRet, 2)
 
 	// call site
-	h := e.fn("(*messageHandler).storeCapabilityMessage")
+	// the function that merges a received capability into the stored peer: the
+	// production caller of MergeCapabilities
+	var h *ssa.Function
+	for _, cs := range e.prodCallers(fn) {
+		if h != nil && cs.Parent() != h {
+			c.Unknown("C28.R1", "callers of MergeCapabilities", w.Pos(cs.Pos()), "MergeCapabilities is called from more than one production function")
+			return
+		}
+		h = cs.Parent()
+	}
+	if h == nil {
+		h = e.fn("(*messageHandler).storeCapabilityMessage")
+	}
 	if h == nil {
 		return
 	}
@@ -977,8 +1007,11 @@ func (e *c28Env) r1() {
 			capCall = l.Call
 		}
 		same := capCall != nil && c28Strip(capCall.Call.Args[0]) == c28Strip(up.Call.Args[0]) && c28Strip(up.Call.Args[0]) == c28Strip(sv.Call.Args[1])
-		c.Decide(same, "C28.R1", hn+" merge arguments", w.Pos(mg.Pos()),
-			"MergeCapabilities(stored capability of the peer, parsed message)", "the capability that is merged, the peer that is updated and the peer that is saved are not the same peer value")
+		if same {
+			c.OK("C28.R1", hn+" merge arguments", w.Pos(mg.Pos()), "MergeCapabilities(stored capability of the peer, parsed message)")
+		} else {
+			c.Unknown("C28.R1", hn+" merge arguments", w.Pos(mg.Pos()), "cannot establish that the capability that is merged, the peer that is updated and the peer that is saved are the same peer value")
+		}
 	case a1.OnlyFrom(isParsed) && a2.OnlyFrom(isStored):
 		c.Bad("C28.R1", hn+" merge arguments", w.Pos(mg.Pos()), "MergeCapabilities is called as (received, stored): the roles are swapped, so the stored capability wins unless it has the LOWER version — a normal same-version poll never updates the store")
 	default:
@@ -1005,18 +1038,163 @@ func (e *c28Env) r1() {
 	after := an.ReachFromInstr(up)
 	after[up.Block()] = true
 	for _, r := range an.Returns(h) {
-		if !after[r.Block()] || len(r.Results) != 2 {
+		if len(r.Results) != 2 {
 			continue
 		}
-		if r.Block() == up.Block() && an.InstrIndex(r) < an.InstrIndex(up) {
+		for _, rc := range c28ExpandReturn(r) {
+			if !after[rc.block] {
+				continue
+			}
+			if rc.block == up.Block() && rc.edge == nil && an.InstrIndex(r) < an.InstrIndex(up) {
+				continue
+			}
+			es := w.Sources(rc.vals[1], an.FlowOpts{})
+			if !es.OnlyFrom(func(l an.Src) bool { return l.Kind == "zero" }) {
+				continue
+			}
+			switch {
+			case rc.domAt(okE):
+				c.OK("C28.R1", hn+" success after update", w.Pos(r.Pos()), "success is reported only after SavePeerState succeeded")
+			case e.uninterpretedGuard(rc, c28AboutCall(sv)) != "":
+				c.Unknown("C28.R1", hn+" success after update", w.Pos(r.Pos()), "success is reported under the predicate "+e.uninterpretedGuard(rc, c28AboutCall(sv))+", which the rule does not interpret")
+			default:
+				c.Bad("C28.R1", hn+" success after update", w.Pos(r.Pos()), "after UpdateCapability a nil error is returned on a path that does not pass the success edge of SavePeerState: the in-memory capability is newer than the persisted one")
+			}
+		}
+	}
+}
+
+// c28RetCase is one way a return hands out its results: the results themselves,
+// or — when they are phis of the returning block ("result selected into a local,
+// returned once") — the incoming values of one predecessor, judged at that
+// predecessor plus the edge into the returning block.
+type c28RetCase struct {
+	vals  []ssa.Value
+	block *ssa.BasicBlock
+	edge  *an.Edge
+}
+
+func c28ExpandReturn(r *ssa.Return) []c28RetCase {
+	var out []c28RetCase
+	var rec func(vals []ssa.Value, block *ssa.BasicBlock, edge *an.Edge, depth int)
+	rec = func(vals []ssa.Value, block *ssa.BasicBlock, edge *an.Edge, depth int) {
+		split := false
+		for _, v := range vals {
+			if ph, ok := v.(*ssa.Phi); ok && ph.Block() == block && depth < 4 {
+				split = true
+			}
+		}
+		if !split {
+			out = append(out, c28RetCase{vals: vals, block: block, edge: edge})
+			return
+		}
+		for i, pred := range block.Preds {
+			nv := make([]ssa.Value, len(vals))
+			for j, v := range vals {
+				nv[j] = v
+				if ph, ok := v.(*ssa.Phi); ok && ph.Block() == block && i < len(ph.Edges) {
+					nv[j] = ph.Edges[i]
+				}
+			}
+			idx := 0
+			for k, sc := range pred.Succs {
+				if sc == block {
+					idx = k
+				}
+			}
+			rec(nv, pred, &an.Edge{From: pred, Idx: idx}, depth+1)
+		}
+	}
+	rec(r.Results, r.Block(), nil, 0)
+	return out
+}
+
+// domAt: every path into the case passes one of the edges.
+func (rc c28RetCase) domAt(es []an.Edge) bool {
+	if len(es) == 0 {
+		return false
+	}
+	if rc.edge != nil {
+		for _, x := range es {
+			if x == *rc.edge {
+				return true
+			}
+		}
+	}
+	return an.EdgesDominate(es, rc.block)
+}
+
+func (e *c28Env) factsAt(rc c28RetCase) []an.Fact {
+	fs := append([]an.Fact{}, e.w.FactsDominatingBlock(rc.block)...)
+	if rc.edge != nil && len(rc.edge.From.Succs) == 2 && rc.edge.From.Succs[0] != rc.edge.From.Succs[1] {
+		for _, f := range e.w.Facts(rc.block.Parent()) {
+			if f.Edge == *rc.edge {
+				fs = append(fs, f)
+			}
+		}
+	}
+	return fs
+}
+
+// uninterpretedGuard: the case is guarded by the answer of an in-module (or
+// dynamically dispatched) predicate over one of the given values that the rule
+// did not look into — a negative verdict would only say "I could not interpret
+// the guard". Predicates over unrelated values do not count.
+func (e *c28Env) uninterpretedGuard(rc c28RetCase, about func(l an.Src) bool) string {
+	return e.uninterpretedIn(e.factsAt(rc), about)
+}
+
+func (e *c28Env) uninterpretedIn(fs []an.Fact, about func(l an.Src) bool) string {
+	for _, f := range fs {
+		if f.Rel != "true" && f.Rel != "false" {
 			continue
 		}
-		es := w.Sources(r.Results[1], an.FlowOpts{})
-		if !es.OnlyFrom(func(l an.Src) bool { return l.Kind == "zero" }) {
+		call, ok := f.Cond.(*ssa.Call)
+		if !ok {
 			continue
 		}
-		c.Decide(len(okE) > 0 && an.EdgesDominate(okE, r.Block()), "C28.R1", hn+" success after update", w.Pos(r.Pos()),
-			"success is reported only after SavePeerState succeeded", "after UpdateCapability a nil error is returned on a path that does not pass the success edge of SavePeerState: the in-memory capability is newer than the persisted one")
+		inf := e.w.Info(call)
+		if !((inf.Static != nil && e.w.InModule(inf.Static)) || (inf.Static == nil && !strings.HasPrefix(inf.Name, "builtin:"))) {
+			continue
+		}
+		args := append([]ssa.Value{}, call.Call.Args...)
+		if call.Call.IsInvoke() {
+			args = append(args, call.Call.Value)
+		}
+		for _, a := range args {
+			for _, l := range e.w.Sources(a, an.FlowOpts{}).Leaves {
+				if about(l) {
+					return inf.Name
+				}
+			}
+		}
+	}
+	return ""
+}
+
+func c28AboutCall(calls ...*ssa.Call) func(l an.Src) bool {
+	return func(l an.Src) bool {
+		for _, c := range calls {
+			if l.Kind == "call" && l.Call == c {
+				return true
+			}
+		}
+		return false
+	}
+}
+
+func c28AboutParams(fn *ssa.Function, idx ...int) func(l an.Src) bool {
+	return func(l an.Src) bool {
+		p, ok := l.Val.(*ssa.Parameter)
+		if !ok || l.Kind != "param" || p.Parent() != fn {
+			return false
+		}
+		for _, i := range idx {
+			if l.Idx == i {
+				return true
+			}
+		}
+		return false
 	}
 }
 
@@ -1041,6 +1219,59 @@ func c28Strip(v ssa.Value) ssa.Value {
 // R2
 // =====================================================================================
 
+// recordConverters finds the pair of functions that turn a Peer into the stored
+// record and back, structurally: the in-module call whose result SavePeerState
+// hands to json.Marshal, and the in-module call whose result GetPeerState
+// returns. Falls back to the names used on the pinned tree.
+func (e *c28Env) recordConverters() (toRec, toPeer *ssa.Function) {
+	w := e.w
+	inMod := func(c *ssa.Call) *ssa.Function {
+		if c == nil {
+			return nil
+		}
+		f := w.Info(c).Static
+		if f == nil || !w.InModule(f) || f.Blocks == nil {
+			return nil
+		}
+		return f
+	}
+	if save := w.Func("peersync", "(*Store).SavePeerState"); save != nil && save.Blocks != nil {
+		for _, ci := range an.Calls(save) {
+			if w.Info(ci).Name != "func:encoding/json.Marshal" || len(ci.Common().Args) != 1 {
+				continue
+			}
+			ss := w.Sources(ci.Common().Args[0], an.FlowOpts{})
+			if len(ss.Leaves) == 1 && ss.Leaves[0].Kind == "call" {
+				if f := inMod(ss.Leaves[0].Call); f != nil && len(f.Params) == 1 {
+					toRec = f
+				}
+			}
+		}
+	}
+	if get := w.Func("peersync", "(*Store).GetPeerState"); get != nil && get.Blocks != nil {
+		for _, r := range an.Returns(get) {
+			if len(r.Results) != 2 {
+				continue
+			}
+			ss := w.Sources(r.Results[0], an.FlowOpts{})
+			for _, l := range ss.Leaves {
+				if l.Kind == "call" && l.Idx == 0 {
+					if f := inMod(l.Call); f != nil && f.Signature.Recv() != nil {
+						toPeer = f
+					}
+				}
+			}
+		}
+	}
+	if toRec == nil {
+		toRec = e.fn("peerToRecord")
+	}
+	if toPeer == nil {
+		toPeer = e.fn("(*peerRecord).toPeer")
+	}
+	return toRec, toPeer
+}
+
 func (e *c28Env) r2() {
 	c, w := e.c, e.w
 	peerT := w.Named("peersync", "Peer")
@@ -1049,7 +1280,7 @@ func (e *c28Env) r2() {
 		c.Anchor("peersync.Peer / PeerCapability do not resolve")
 		return
 	}
-	toRec, toPeer := e.fn("peerToRecord"), e.fn("(*peerRecord).toPeer")
+	toRec, toPeer := e.recordConverters()
 	fromCap, toCap := e.fn("SnapshotFromCapability"), e.fn("(*PeerCapabilitySnapshot).ToCapability")
 	if toRec == nil || toPeer == nil || fromCap == nil || toCap == nil {
 		return
@@ -1095,7 +1326,11 @@ func (e *c28Env) r2() {
 		var out c28Set
 		it.fix(func() {
 			_, r1 := it.exec(toRec, []c28Set{c28One("⟨P⟩")}, nil, "w", 0, map[*ssa.Function]bool{})
-			_, r2 := it.exec(toPeer, []c28Set{r1[0], c28One("⟨key⟩")}, nil, "r", 0, map[*ssa.Function]bool{})
+			env := []c28Set{r1[0]}
+			for len(env) < len(toPeer.Params) {
+				env = append(env, c28One("⟨key⟩"))
+			}
+			_, r2 := it.exec(toPeer, env, nil, "r", 0, map[*ssa.Function]bool{})
 			out = r2[0]
 		})
 		if it.gave {
@@ -1123,7 +1358,13 @@ func (e *c28Env) r2() {
 	}
 
 	// JSON layer
-	for _, tn := range []string{"peerRecord", "PeerCapabilitySnapshot"} {
+	recName := "peerRecord"
+	if toRec.Signature.Results().Len() == 1 {
+		if n := an.NamedOf(toRec.Signature.Results().At(0).Type()); n != nil {
+			recName = n.Obj().Name()
+		}
+	}
+	for _, tn := range []string{recName, "PeerCapabilitySnapshot"} {
 		n := w.Named("peersync", tn)
 		if n == nil {
 			c.Anchor("peersync.%s does not resolve", tn)
@@ -1321,9 +1562,151 @@ func (e *c28Env) guardedBy(instr ssa.Instruction, pred func(f an.Fact, at ssa.In
 	return true, ""
 }
 
+// c28Membership describes what an in-module predicate answers when evaluated
+// symbolically with its parameters as inputs.
+type c28Membership struct {
+	ok          bool // some answer is the comma-ok membership of a key derived from parameter keyIdx in map parameter mapIdx
+	negated     bool // ... negated
+	keyIdx      int
+	mapIdx      int
+	other       string // an answer that is neither a constant nor that membership
+	all         string
+	hasMapParam bool
+}
+
+var c28OkRe = regexp.MustCompile(`^(not\()?ok\(⟨A(\d+)⟩;(.*)\)$`)
+
+func (e *c28Env) membership(fn *ssa.Function) c28Membership {
+	var mp c28Membership
+	for _, p := range fn.Params {
+		if _, isMap := p.Type().Underlying().(*types.Map); isMap {
+			mp.hasMapParam = true
+		}
+	}
+	if fn.Signature.Results().Len() != 1 {
+		return mp
+	}
+	it := c28NewInterp(e.w)
+	var res []c28Set
+	it.fix(func() {
+		env := make([]c28Set, len(fn.Params))
+		for i := range env {
+			env[i] = c28One(fmt.Sprintf("⟨A%d⟩", i))
+		}
+		_, res = it.exec(fn, env, nil, "k", 0, map[*ssa.Function]bool{})
+	})
+	if it.gave || len(res) != 1 {
+		mp.other = "evaluation did not converge"
+		return mp
+	}
+	mp.all = res[0].String()
+	for _, t := range res[0].sorted() {
+		if t == "c:false" || t == "c:true" {
+			continue
+		}
+		m := c28OkRe.FindStringSubmatch(t)
+		if m == nil {
+			mp.other = t
+			continue
+		}
+		neg := m[1] != ""
+		if neg {
+			t = strings.TrimSuffix(t, ")")
+		}
+		var mi int
+		fmt.Sscanf(m[2], "%d", &mi)
+		keys := c28LeafRe.FindAllString(m[3], -1)
+		ki := -1
+		for _, k := range keys {
+			var x int
+			if n, _ := fmt.Sscanf(k, "⟨A%d", &x); n == 1 && x != mi {
+				ki = x
+			}
+		}
+		if ki < 0 {
+			mp.other = t
+			continue
+		}
+		mp.ok, mp.negated, mp.keyIdx, mp.mapIdx = true, neg, ki, mi
+	}
+	return mp
+}
+
+// impliesCall: the in-module predicate called here answers true only with the
+// result of a call to `name` (e.g. `func due(p, t) bool { return p != nil && p.IsExpired(t) }`).
+func (e *c28Env) impliesCall(call *ssa.Call, name string) bool {
+	inf := e.w.Info(call)
+	if inf.Static == nil || !e.w.InModule(inf.Static) || inf.Static.Blocks == nil {
+		return false
+	}
+	found := false
+	seen := map[ssa.Value]bool{}
+	var okv func(v ssa.Value) bool
+	okv = func(v ssa.Value) bool {
+		if seen[v] {
+			return true
+		}
+		seen[v] = true
+		switch x := v.(type) {
+		case *ssa.Const:
+			return x.Value != nil && x.Value.Kind() == constant.Bool && !constant.BoolVal(x.Value)
+		case *ssa.Phi:
+			for _, ed := range x.Edges {
+				if !okv(ed) {
+					return false
+				}
+			}
+			return true
+		case *ssa.Call:
+			if e.w.Info(x).Name == name {
+				found = true
+				return true
+			}
+		}
+		return false
+	}
+	for _, r := range an.Returns(inf.Static) {
+		if len(r.Results) != 1 || !okv(r.Results[0]) {
+			return false
+		}
+	}
+	return found
+}
+
+// uninterpretedAround: facts dominating instr in its function and (up to
+// depth) at its production call sites contain an in-module / dynamic predicate
+// over a value selected by `about` that is not one of the predicates in known.
+func (e *c28Env) uninterpretedAround(instr ssa.Instruction, depth int, about func(l an.Src) bool, known map[*ssa.Function]c28Membership) string {
+	var fs []an.Fact
+	for _, f := range e.w.FactsDominating(instr) {
+		if call, ok := f.Cond.(*ssa.Call); ok {
+			inf := e.w.Info(call)
+			if inf.Name == "func:(*peersync.Peer).IsExpired" {
+				continue
+			}
+			if mp, isKnown := known[inf.Static]; isKnown && inf.Static != nil && (mp.ok || mp.other == "") {
+				continue
+			}
+		}
+		fs = append(fs, f)
+	}
+	if s := e.uninterpretedIn(fs, about); s != "" {
+		return s
+	}
+	if depth > 0 {
+		for _, cs := range e.prodCallers(instr.Parent()) {
+			if s := e.uninterpretedAround(cs, depth-1, about, known); s != "" {
+				return s
+			}
+		}
+	}
+	return ""
+}
+
 func (e *c28Env) r3() {
 	c, w := e.c, e.w
 	nDel := 0
+	keepPreds := map[*ssa.Function]c28Membership{}
 	for _, fn := range prodFuncs(w) {
 		if w.FnRel(fn) != "peersync" {
 			continue
@@ -1352,37 +1735,81 @@ func (e *c28Env) r3() {
 				continue
 			}
 			// cursor delete: expired ...
-			okExp, why := e.guardedBy(ci, func(f an.Fact, at ssa.Instruction) bool {
-				if !an.AtomIs(f, "(*peersync.Peer).IsExpired", true) {
+			// the peer materialised from the record: result #0 of an in-module call that yields a *Peer
+			isMaterialised := func(l an.Src) bool {
+				if l.Kind != "call" || l.Call == nil || l.Idx != 0 {
 					return false
 				}
+				res := l.Call.Call.Signature().Results()
+				if res.Len() == 0 {
+					return false
+				}
+				n := an.NamedOf(res.At(0).Type())
+				return n != nil && n.Obj().Name() == "Peer" && n.Obj().Pkg() != nil && strings.HasSuffix(n.Obj().Pkg().Path(), "/peersync")
+			}
+			isPeerLeaf := func(l an.Src) bool { return isMaterialised(l) || l.Kind == "param" }
+			okExp, why := e.guardedBy(ci, func(f an.Fact, at ssa.Instruction) bool {
 				call, ok := f.Cond.(*ssa.Call)
-				if !ok || len(call.Call.Args) != 2 {
+				if !ok || f.Rel != "true" {
+					return false
+				}
+				if w.Info(call).Name != "func:(*peersync.Peer).IsExpired" {
+					// a predicate helper that answers true only with IsExpired
+					return e.impliesCall(call, "func:(*peersync.Peer).IsExpired")
+				}
+				if len(call.Call.Args) != 2 {
 					return false
 				}
 				// the peer comes from the record at the cursor, the timeout is a parameter
 				ps := w.Sources(call.Call.Args[0], an.FlowOpts{})
 				ts := w.Sources(call.Call.Args[1], an.FlowOpts{})
-				return ps.OnlyFrom(func(l an.Src) bool {
-					return (l.Kind == "call" && l.Name == "func:(*peersync.peerRecord).toPeer#0") || l.Kind == "param"
-				}) && ts.OnlyFrom(func(l an.Src) bool { return l.Kind == "param" || l.Kind == "field" })
+				return ps.OnlyFrom(isPeerLeaf) && ts.OnlyFrom(func(l an.Src) bool { return l.Kind == "param" || l.Kind == "field" })
 			}, 1)
-			c.Decide(okExp, "C28.R3", cons+" expired", pos, "dominated by IsExpired(timeout) == true on the peer read at the cursor",
-				"a peer record is deleted without the test IsExpired(timeout) on that record: "+why)
+			switch {
+			case okExp:
+				c.OK("C28.R3", cons+" expired", pos, "dominated by IsExpired(timeout) == true on the peer read at the cursor")
+			case e.uninterpretedAround(ci, 1, isMaterialised, nil) != "":
+				c.Unknown("C28.R3", cons+" expired", pos, "the delete is guarded by a predicate over the peer that the rule does not interpret: "+e.uninterpretedAround(ci, 1, isMaterialised, nil))
+			default:
+				c.Bad("C28.R3", cons+" expired", pos, "a peer record is deleted without the test IsExpired(timeout) on that record: "+why)
+			}
 			// ... and not connected
 			okKeep, why2 := e.guardedBy(ci, func(f an.Fact, at ssa.Instruction) bool {
-				if !an.AtomIs(f, "peersync.shouldKeepPeer", false) {
-					return false
-				}
-				call, ok := f.Cond.(*ssa.Call)
-				if !ok || len(call.Call.Args) != 2 {
+				var keyArg, mapArg ssa.Value
+				switch x := f.Cond.(type) {
+				case *ssa.Call:
+					inf := w.Info(x)
+					if inf.Static == nil || !w.InModule(inf.Static) || inf.Static.Blocks == nil {
+						return false
+					}
+					mp := e.membership(inf.Static)
+					keepPreds[inf.Static] = mp
+					if !mp.ok || mp.keyIdx >= len(x.Call.Args) || mp.mapIdx >= len(x.Call.Args) {
+						return false
+					}
+					// "not a member" holds on this edge
+					if (f.Rel == "false") == mp.negated || (f.Rel != "false" && f.Rel != "true") {
+						return false
+					}
+					keyArg, mapArg = x.Call.Args[mp.keyIdx], x.Call.Args[mp.mapIdx]
+				case *ssa.Extract:
+					// inline `_, ok := keep[id]`
+					lk, isL := x.Tuple.(*ssa.Lookup)
+					if !isL || !lk.CommaOk || x.Index != 1 || f.Rel != "false" {
+						return false
+					}
+					if _, isMap := lk.X.Type().Underlying().(*types.Map); !isMap {
+						return false
+					}
+					mapArg = lk.X
+				default:
 					return false
 				}
 				// same key as the one handed down to the deleting function
-				if atc, ok := at.(ssa.CallInstruction); ok && at.Parent() == call.Parent() {
+				if atc, ok := at.(ssa.CallInstruction); ok && keyArg != nil && at.Parent() == f.Cond.(ssa.Instruction).Parent() {
 					same := false
 					for _, a := range atc.Common().Args {
-						if c28Strip(a) == c28Strip(call.Call.Args[0]) {
+						if c28Strip(a) == c28Strip(keyArg) {
 							same = true
 						}
 					}
@@ -1390,39 +1817,48 @@ func (e *c28Env) r3() {
 						return false
 					}
 				}
-				ks := w.Sources(call.Call.Args[1], an.FlowOpts{})
+				ks := w.Sources(mapArg, an.FlowOpts{})
 				return ks.OnlyFrom(func(l an.Src) bool { return l.Kind == "param" })
 			}, 2)
-			c.Decide(okKeep, "C28.R3", cons+" not connected", pos, "dominated by shouldKeepPeer(key, keep) == false for the key that is deleted",
-				"a peer record can be deleted without consulting the connected-peer set: "+why2)
+			isMapLeaf := func(l an.Src) bool {
+				if l.Val == nil {
+					return false
+				}
+				_, isMap := l.Val.Type().Underlying().(*types.Map)
+				return isMap
+			}
+			switch {
+			case okKeep:
+				c.OK("C28.R3", cons+" not connected", pos, "dominated by `the key is not in the keep set` for the key that is deleted")
+			case e.uninterpretedAround(ci, 2, isMapLeaf, keepPreds) != "":
+				c.Unknown("C28.R3", cons+" not connected", pos, "the delete is guarded by a predicate over the keep set that the rule does not interpret: "+e.uninterpretedAround(ci, 2, isMapLeaf, keepPreds))
+			default:
+				c.Bad("C28.R3", cons+" not connected", pos, "a peer record can be deleted without consulting the connected-peer set: "+why2)
+			}
 		}
 	}
 	c.AtLeast("C28.R3", "bbolt delete calls in peersync", nDel, 2)
 
-	// shouldKeepPeer = membership
-	if fn := e.fn("shouldKeepPeer"); fn != nil {
-		it := c28NewInterp(w)
-		var res []c28Set
-		it.fix(func() {
-			_, res = it.exec(fn, []c28Set{c28One("⟨K⟩"), c28One("⟨M⟩")}, nil, "k", 0, map[*ssa.Function]bool{})
-		})
-		member, other := false, ""
-		for t := range res[0] {
-			switch {
-			case t == "c:false" || t == "c:true":
-			case strings.HasPrefix(t, "ok(⟨M⟩;") && strings.Contains(t, "⟨K⟩") && !strings.Contains(t, "not("):
-				member = true
-			default:
-				other = t
-			}
+	// the keep predicates met on the way = membership of the key in the keep set
+	var kfs []*ssa.Function
+	for f := range keepPreds {
+		kfs = append(kfs, f)
+	}
+	sort.Slice(kfs, func(i, j int) bool { return w.FuncName(kfs[i]) < w.FuncName(kfs[j]) })
+	for _, fn := range kfs {
+		mp := keepPreds[fn]
+		if !mp.hasMapParam {
+			continue // not a predicate over a set
 		}
 		switch {
-		case member && other == "":
-			c.OK("C28.R3", w.FuncName(fn), w.Pos(fn.Pos()), "answers with the membership of the key in the keep set: "+res[0].String())
-		case other != "":
-			c.Bad("C28.R3", w.FuncName(fn), w.Pos(fn.Pos()), "the answer is not (only) the membership of the key in the keep set: "+other)
+		case mp.ok && !mp.negated && mp.other == "":
+			c.OK("C28.R3", w.FuncName(fn), w.Pos(fn.Pos()), "answers with the membership of the key in the keep set: "+mp.all)
+		case mp.ok && mp.negated:
+			c.Bad("C28.R3", w.FuncName(fn), w.Pos(fn.Pos()), "the answer is the NEGATED membership of the key in the keep set: "+mp.all)
+		case mp.ok || mp.other != "":
+			c.Unknown("C28.R3", w.FuncName(fn), w.Pos(fn.Pos()), "the answer is not only the membership of the key in the keep set: "+mp.other)
 		default:
-			c.Bad("C28.R3", w.FuncName(fn), w.Pos(fn.Pos()), "the keep set is never consulted for the key: "+res[0].String())
+			c.Bad("C28.R3", w.FuncName(fn), w.Pos(fn.Pos()), "the keep set is never consulted for the key: "+mp.all)
 		}
 	}
 
@@ -1440,6 +1876,7 @@ func (e *c28Env) r3() {
 		c.OK("C28.R3", "(*peersync.Store).CleanupExpired callers", w.Pos(wrapper.Pos()), "no production caller")
 	}
 	nCall := 0
+	listers := map[*ssa.Function]bool{}
 	for _, s := range e.prodCallers(cleanup) {
 		caller := s.Parent()
 		if caller == wrapper {
@@ -1451,26 +1888,52 @@ func (e *c28Env) r3() {
 		args := s.Common().Args
 		ks := w.Sources(args[len(args)-1], an.FlowOpts{})
 		var lister *ssa.Call
-		okSrc := ks.OnlyFrom(func(l an.Src) bool {
-			if l.Kind == "call" && l.Name == "func:(*peersync.poller).connectedPeers#0" {
-				lister = l.Call
-				return true
+		onlyNothing := len(ks.Leaves) > 0
+		okSrc := len(ks.Leaves) > 0
+		for _, l := range ks.Leaves {
+			if l.Kind != "zero" && l.Kind != "const" && l.Kind != "alloc" {
+				onlyNothing = false
 			}
-			return false
-		})
-		if !okSrc {
-			c.Bad("C28.R3", cons, pos, "the keep set is not the connected-peer listing: "+strings.Join(ks.Names(), ", "))
+			// the connected-peer listing: an in-module function that (transitively) asks Lightning.ListPeers
+			if l.Kind == "call" && l.Call != nil && l.Idx == 0 {
+				if cal := w.Info(l.Call).Static; cal != nil && w.InModule(cal) && w.Summary(cal).HasEffect("iface:peersync.Lightning.ListPeers") {
+					if lister == nil || lister == l.Call {
+						lister = l.Call
+						continue
+					}
+				}
+			}
+			okSrc = false
+		}
+		switch {
+		case onlyNothing:
+			c.Bad("C28.R3", cons, pos, "the keep set is empty/nil, not the connected-peer listing: "+strings.Join(ks.Names(), ", "))
+			continue
+		case !okSrc || lister == nil:
+			c.Unknown("C28.R3", cons, pos, "cannot identify the keep set as the result of the connected-peer listing: "+strings.Join(ks.Names(), ", "))
 			continue
 		}
+		listers[w.Info(lister).Static] = true
 		okE, _ := an.OkEdges(lister)
-		c.Decide(len(okE) > 0 && an.EdgesDominate(okE, s.Block()), "C28.R3", cons, pos,
-			"keep set = connectedPeers(), cleanup skipped when listing failed",
-			"the cleanup runs although listing the connected peers failed (keep set nil/partial): connected peers are removed")
+		switch {
+		case len(okE) > 0 && an.EdgesDominate(okE, s.Block()):
+			c.OK("C28.R3", cons, pos, "keep set = connected-peer listing, cleanup skipped when listing failed")
+		case e.uninterpretedIn(w.FactsDominating(s), c28AboutCall(lister)) != "":
+			c.Unknown("C28.R3", cons, pos, "the cleanup is guarded by a predicate over the listing result that the rule does not interpret: "+e.uninterpretedIn(w.FactsDominating(s), c28AboutCall(lister)))
+		default:
+			c.Bad("C28.R3", cons, pos, "the cleanup runs although listing the connected peers failed (keep set nil/partial): connected peers are removed")
+		}
 	}
 	c.AtLeast("C28.R3", "production callers of CleanupExpiredExcept", nCall, 1)
 
-	// connectedPeers: a nil error only when the listing succeeded
-	if fn := e.fn("(*poller).connectedPeers"); fn != nil {
+	// the listing function: a nil error only when the listing succeeded
+	var lfs []*ssa.Function
+	for f := range listers {
+		lfs = append(lfs, f)
+	}
+	sort.Slice(lfs, func(i, j int) bool { return w.FuncName(lfs[i]) < w.FuncName(lfs[j]) })
+	nImpl := 0
+	for _, fn := range lfs {
 		ls := []*ssa.Call{}
 		for _, ci := range an.Calls(fn) {
 			if call, ok := ci.(*ssa.Call); ok && w.Info(call).Name == "iface:peersync.Lightning.ListPeers" {
@@ -1478,24 +1941,39 @@ func (e *c28Env) r3() {
 			}
 		}
 		if len(ls) != 1 {
-			c.Unknown("C28.R3", w.FuncName(fn), w.Pos(fn.Pos()), "expected one Lightning.ListPeers call")
-			return
+			c.Unknown("C28.R3", w.FuncName(fn), w.Pos(fn.Pos()), "expected one direct Lightning.ListPeers call in the listing function")
+			continue
 		}
 		okE, _ := an.OkEdges(ls[0])
 		var noLn []an.Edge
 		for _, f := range w.Facts(fn) {
-			if an.EqIs(f, "==", "field:poller.lightning", "nil") {
-				noLn = append(noLn, f.Edge)
+			if f.NonNum && f.Rel == "==" && f.LV != nil && f.RV != nil {
+				// `lightning == nil`: the interface value ListPeers is invoked on
+				for _, side := range [][2]ssa.Value{{f.LV, f.RV}, {f.RV, f.LV}} {
+					if an.IsNilConst(c28Strip(side[1])) && c28SameOrigin(w, side[0], ls[0].Call.Value) {
+						noLn = append(noLn, f.Edge)
+					}
+				}
 			}
 		}
 		for _, r := range an.Returns(fn) {
-			es := w.Sources(r.Results[1], an.FlowOpts{})
-			if !es.OnlyFrom(func(l an.Src) bool { return l.Kind == "zero" }) {
+			if len(r.Results) != 2 {
 				continue
 			}
-			c.Decide(an.EdgesDominate(append(append([]an.Edge{}, okE...), noLn...), r.Block()), "C28.R3", w.FuncName(fn)+" nil-error return", w.Pos(r.Pos()),
-				"a connected set is returned without error only when ListPeers succeeded (or no node is configured)",
-				"connectedPeers reports success although ListPeers failed: the (empty) set makes the cleanup remove connected peers")
+			for _, rc := range c28ExpandReturn(r) {
+				es := w.Sources(rc.vals[1], an.FlowOpts{})
+				if !es.OnlyFrom(func(l an.Src) bool { return l.Kind == "zero" }) {
+					continue
+				}
+				switch {
+				case rc.domAt(append(append([]an.Edge{}, okE...), noLn...)):
+					c.OK("C28.R3", w.FuncName(fn)+" nil-error return", w.Pos(r.Pos()), "a connected set is returned without error only when ListPeers succeeded (or no node is configured)")
+				case e.uninterpretedGuard(rc, c28AboutCall(ls[0])) != "":
+					c.Unknown("C28.R3", w.FuncName(fn)+" nil-error return", w.Pos(r.Pos()), "success is reported under the predicate "+e.uninterpretedGuard(rc, c28AboutCall(ls[0]))+", which the rule does not interpret")
+				default:
+					c.Bad("C28.R3", w.FuncName(fn)+" nil-error return", w.Pos(r.Pos()), "the listing function reports success although ListPeers failed: the (empty) set makes the cleanup remove connected peers")
+				}
+			}
 		}
 		// every entry of the set is a listed peer
 		nUpd := 0
@@ -1504,15 +1982,17 @@ func (e *c28Env) r3() {
 				if mu, ok := in.(*ssa.MapUpdate); ok {
 					nUpd++
 					ks := w.Sources(mu.Key, an.FlowOpts{})
-					c.Decide(ks.OnlyFrom(func(l an.Src) bool { return l.Kind == "call" && l.Call == ls[0] && l.Idx == 0 }), "C28.R3", w.FuncName(fn)+" set entries", w.Pos(mu.Pos()),
-						"entries are the peers ListPeers returned", "the connected set is filled from "+strings.Join(ks.Names(), ", "))
+					if ks.OnlyFrom(func(l an.Src) bool { return l.Kind == "call" && l.Call == ls[0] && l.Idx == 0 }) {
+						c.OK("C28.R3", w.FuncName(fn)+" set entries", w.Pos(mu.Pos()), "entries are the peers ListPeers returned")
+					} else {
+						c.Unknown("C28.R3", w.FuncName(fn)+" set entries", w.Pos(mu.Pos()), "cannot trace the entries of the connected set to the ListPeers result: "+strings.Join(ks.Names(), ", "))
+					}
 				}
 			}
 		}
 		c.AtLeast("C28.R3", "insertions into the connected set", nUpd, 1)
 
 		// the implementations behind Lightning.ListPeers report a failed listing
-		nImpl := 0
 		if n := w.CG().Nodes[fn]; n != nil {
 			seen := map[*ssa.Function]bool{}
 			for _, out := range n.Out {
@@ -1524,8 +2004,21 @@ func (e *c28Env) r3() {
 				e.listingPropagates(out.Callee.Func, 0, map[*ssa.Function]bool{})
 			}
 		}
+	}
+	if len(lfs) > 0 {
 		c.AtLeast("C28.R3", "production implementations of Lightning.ListPeers", nImpl, 2)
 	}
+}
+
+// c28SameOrigin: two values are loads of the same field of the same base.
+func c28SameOrigin(w *an.World, a, b ssa.Value) bool {
+	a, b = c28Strip(a), c28Strip(b)
+	if a == b {
+		return true
+	}
+	ca, ra := w.FieldChain(a)
+	cb, rb := w.FieldChain(b)
+	return ca != "" && ca == cb && ra == rb
 }
 
 // originCalls: the calls whose results the elements of v are taken from
@@ -1602,28 +2095,38 @@ func (e *c28Env) listingPropagates(fn *ssa.Function, depth int, seen map[*ssa.Fu
 				continue
 			}
 			okE, _ := an.OkEdges(o)
-			good := true
+			good, unknown := true, ""
 			var at token.Pos
+			after := an.ReachFromInstr(o)
 			for _, r := range an.Returns(fn) {
 				if errIdx >= len(r.Results) {
 					continue
 				}
-				es := w.Sources(r.Results[errIdx], an.FlowOpts{})
-				if !es.OnlyFrom(func(l an.Src) bool { return l.Kind == "zero" }) {
-					continue
-				}
-				if !an.ReachFromInstr(o)[r.Block()] && r.Block() != o.Block() {
-					continue // return that cannot follow the listing call
-				}
-				if len(okE) == 0 || !an.EdgesDominate(okE, r.Block()) {
-					good = false
-					at = r.Pos()
+				for _, rc := range c28ExpandReturn(r) {
+					es := w.Sources(rc.vals[errIdx], an.FlowOpts{})
+					if !es.OnlyFrom(func(l an.Src) bool { return l.Kind == "zero" }) {
+						continue
+					}
+					if !after[rc.block] && rc.block != o.Block() {
+						continue // return that cannot follow the listing call
+					}
+					if !rc.domAt(okE) {
+						if u := e.uninterpretedGuard(rc, c28AboutCall(o)); u != "" {
+							unknown = u
+							continue
+						}
+						good = false
+						at = r.Pos()
+					}
 				}
 			}
-			if good {
-				c.OK("C28.R3", cons, w.Pos(o.Pos()), "a nil error is returned only on the success edge of "+strings.TrimPrefix(info.Name, "func:"))
-			} else {
+			switch {
+			case !good:
 				c.Bad("C28.R3", cons, w.Pos(at), "a nil error is returned on a path where "+strings.TrimPrefix(info.Name, "func:")+" failed or was not checked")
+			case unknown != "":
+				c.Unknown("C28.R3", cons, w.Pos(o.Pos()), "success is reported under the predicate "+unknown+" over the listing result, which the rule does not interpret")
+			default:
+				c.OK("C28.R3", cons, w.Pos(o.Pos()), "a nil error is returned only on the success edge of "+strings.TrimPrefix(info.Name, "func:"))
 			}
 			continue
 		}
@@ -1647,47 +2150,163 @@ func (e *c28Env) listingPropagates(fn *ssa.Function, depth int, seen map[*ssa.Fu
 // R4
 // =====================================================================================
 
-// retBool resolves the boolean a return instruction hands out when it is a
-// constant (directly or through the named-result cell used with defer).
-func c28RetBool(r *ssa.Return) (val bool, known bool) {
-	if len(r.Results) != 1 {
-		return false, false
-	}
-	v := r.Results[0]
-	if ld, ok := v.(*ssa.UnOp); ok && ld.Op == token.MUL {
-		if al, ok := ld.X.(*ssa.Alloc); ok {
-			// last store to the cell in this block before the load
-			var last ssa.Value
-			for _, in := range r.Block().Instrs {
-				if in == ssa.Instruction(ld) {
-					break
-				}
-				if st, ok := in.(*ssa.Store); ok && st.Addr == al {
-					last = st.Val
-				}
-			}
-			v = last
-		}
-	}
-	cv, ok := v.(*ssa.Const)
-	if !ok || cv.Value == nil || cv.Value.Kind() != constant.Bool {
-		return false, false
-	}
-	return constant.BoolVal(cv.Value), true
-}
-
 func (e *c28Env) r4() {
 	c, w := e.c, e.w
-	allow := e.fn("(*poller).allowRequest")
-	if allow == nil {
-		return
+
+	// --- senders: capability sends whose peer comes from the connected-peer listing
+	type throttle struct {
+		fn                        *ssa.Function
+		peerIdx, nowIdx, forceIdx int
 	}
+	throttles := map[*ssa.Function]*throttle{}
+	fromListing := func(l an.Src) bool {
+		if l.Kind != "call" || l.Call == nil {
+			return false
+		}
+		if strings.HasPrefix(l.Name, "iface:peersync.Lightning.ListPeers") {
+			return true
+		}
+		cal := w.Info(l.Call).Static
+		return cal != nil && w.InModule(cal) && w.Summary(cal).HasEffect("iface:peersync.Lightning.ListPeers")
+	}
+	nSend := 0
+	for _, fn := range prodFuncs(w) {
+		if w.FnRel(fn) != "peersync" {
+			continue
+		}
+		for _, ci := range an.Calls(fn) {
+			if w.Info(ci).Name != "dyn:poller.send" {
+				continue
+			}
+			args := ci.Common().Args
+			if len(args) != 3 {
+				continue
+			}
+			ps := w.Sources(args[1], an.FlowOpts{})
+			listed := false
+			for _, l := range ps.Leaves {
+				if fromListing(l) {
+					listed = true
+				}
+			}
+			cons := w.FuncName(fn) + " send"
+			if !listed {
+				c.Note("C28.R4", cons, w.Pos(ci.Pos()), "peer comes from "+strings.Join(ps.Names(), ", ")+" (known peers; paced by ShouldPoll, not by this clause)")
+				continue
+			}
+			nSend++
+			ok, partial := false, ""
+			for _, f := range w.FactsDominating(ci) {
+				call, isC := f.Cond.(*ssa.Call)
+				if !isC || f.Rel != "true" {
+					continue
+				}
+				inf := w.Info(call)
+				if inf.Static == nil || !w.InModule(inf.Static) || inf.Static.Blocks == nil {
+					continue
+				}
+				// the throttle: an in-module predicate over this very peer value, a time and a bool
+				t := &throttle{fn: inf.Static, peerIdx: -1, nowIdx: -1, forceIdx: -1}
+				for i, a := range call.Call.Args {
+					if c28Strip(a) == c28Strip(args[1]) {
+						t.peerIdx = i
+					}
+				}
+				for i, p := range inf.Static.Params {
+					if n, isN := p.Type().(*types.Named); isN && n.Obj().Pkg() != nil && n.Obj().Pkg().Path() == "time" && n.Obj().Name() == "Time" {
+						t.nowIdx = i
+					}
+					if b, isB := p.Type().Underlying().(*types.Basic); isB && b.Kind() == types.Bool {
+						t.forceIdx = i
+					}
+				}
+				if t.peerIdx < 0 {
+					continue
+				}
+				if t.nowIdx < 0 || t.forceIdx < 0 {
+					partial = inf.Name
+					continue
+				}
+				ns := w.Sources(call.Call.Args[t.nowIdx], an.FlowOpts{})
+				nowOK := ns.OnlyFrom(func(l an.Src) bool { return l.Kind == "call" && l.Name == "func:time.Now#0" })
+				fs := w.Sources(call.Call.Args[t.forceIdx], an.FlowOpts{})
+				forceOK := fs.OnlyFrom(func(l an.Src) bool { return l.Kind == "param" })
+				if nowOK && forceOK {
+					ok = true
+					throttles[inf.Static] = t
+				} else {
+					partial = inf.Name
+				}
+			}
+			aboutPeer := func(l an.Src) bool {
+				for _, pl := range ps.Leaves {
+					if l.Kind == pl.Kind && l.Name == pl.Name && l.Call == pl.Call {
+						return true
+					}
+				}
+				return false
+			}
+			switch {
+			case ok:
+				c.OK("C28.R4", cons, w.Pos(ci.Pos()), "request to an unknown connected peer is dominated by the throttle predicate (peer, time.Now(), force) == true")
+			case partial != "":
+				c.Unknown("C28.R4", cons, w.Pos(ci.Pos()), "the send is guarded by "+partial+" over this peer, which the rule cannot identify as the request throttle (peer, now, force)")
+			case e.uninterpretedIn(w.FactsDominating(ci), aboutPeer) != "":
+				c.Unknown("C28.R4", cons, w.Pos(ci.Pos()), "the send is guarded by a predicate over this peer that the rule does not interpret: "+e.uninterpretedIn(w.FactsDominating(ci), aboutPeer))
+			default:
+				c.Bad("C28.R4", cons, w.Pos(ci.Pos()), "a message is sent to a peer taken from the connected-peer listing without passing the request throttle for that peer: one request per poll tick instead of one per request interval. Facts: "+an.DescribeFacts(w.FactsDominating(ci)))
+			}
+		}
+	}
+	c.AtLeast("C28.R4", "sends to peers from the connected listing", nSend, 1)
+
+	// --- the throttle predicate(s)
+	var ts []*throttle
+	for _, t := range throttles {
+		ts = append(ts, t)
+	}
+	if len(ts) == 0 {
+		// no send is guarded (reported above): still judge the function the tree uses today, if it exists
+		if f := w.Func("peersync", "(*poller).allowRequest"); f != nil && f.Blocks != nil && len(f.Params) == 4 {
+			ts = append(ts, &throttle{fn: f, peerIdx: 1, nowIdx: 2, forceIdx: 3})
+		}
+	}
+	sort.Slice(ts, func(i, j int) bool { return w.FuncName(ts[i].fn) < w.FuncName(ts[j].fn) })
+	nT := 0
+	for _, t := range ts {
+		nT += e.r4Throttle(t.fn, t.peerIdx, t.nowIdx, t.forceIdx)
+	}
+	if len(ts) > 0 {
+		c.AtLeast("C28.R4", "true returns of the request throttle", nT, 1)
+	}
+}
+
+// r4Throttle judges a throttle predicate allow(peer, now, force): under the
+// assumption seen && !force && now-last < interval only `return false` is
+// reachable, and every `return true` first records now for the peer. Returns
+// the number of true returns.
+func (e *c28Env) r4Throttle(allow *ssa.Function, peerIdx, nowIdx, forceIdx int) int {
+	c, w := e.c, e.w
 	an0 := w.FuncName(allow)
 
-	// --- atoms of allowRequest
+	// the map of last request times: a map[...]time.Time held in a field
+	lastField := ""
 	isLastMap := func(v ssa.Value) bool {
+		m, ok := v.Type().Underlying().(*types.Map)
+		if !ok {
+			return false
+		}
+		if n, isN := m.Elem().(*types.Named); !isN || n.Obj().Pkg() == nil || n.Obj().Pkg().Path() != "time" || n.Obj().Name() != "Time" {
+			return false
+		}
 		ss := w.Sources(v, an.FlowOpts{})
-		return ss.OnlyFrom(func(l an.Src) bool { return l.Kind == "field" && l.Name == "poller.lastRequestedAt" })
+		if len(ss.Leaves) != 1 || ss.Leaves[0].Kind != "field" {
+			return false
+		}
+		if lastField == "" {
+			lastField = ss.Leaves[0].Name
+		}
+		return ss.Leaves[0].Name == lastField
 	}
 	isParam := func(v ssa.Value, i int) bool {
 		p, ok := c28Strip(v).(*ssa.Parameter)
@@ -1695,7 +2314,7 @@ func (e *c28Env) r4() {
 	}
 	isSeenLookup := func(v ssa.Value) (*ssa.Lookup, bool) {
 		lk, ok := v.(*ssa.Lookup)
-		if !ok || !lk.CommaOk || !isLastMap(lk.X) || !isParam(lk.Index, 1) {
+		if !ok || !lk.CommaOk || !isLastMap(lk.X) || !isParam(lk.Index, peerIdx) {
 			return nil, false
 		}
 		return lk, true
@@ -1709,7 +2328,7 @@ func (e *c28Env) r4() {
 				return -classify(x.X)
 			}
 		case *ssa.Parameter:
-			if isParam(x, 3) {
+			if isParam(x, forceIdx) {
 				return -1 // force is assumed false
 			}
 		case *ssa.Extract:
@@ -1721,7 +2340,7 @@ func (e *c28Env) r4() {
 		case *ssa.BinOp:
 			isElapsed := func(o ssa.Value) bool {
 				call, ok := c28Strip(o).(*ssa.Call)
-				if !ok || w.Info(call).Name != "func:(time.Time).Sub" || len(call.Call.Args) != 2 || !isParam(call.Call.Args[0], 2) {
+				if !ok || w.Info(call).Name != "func:(time.Time).Sub" || len(call.Call.Args) != 2 || !isParam(call.Call.Args[0], nowIdx) {
 					return false
 				}
 				ex, ok := call.Call.Args[1].(*ssa.Extract)
@@ -1732,8 +2351,12 @@ func (e *c28Env) r4() {
 				return ok
 			}
 			isInterval := func(o ssa.Value) bool {
+				n, isN := o.Type().(*types.Named)
+				if !isN || n.Obj().Pkg() == nil || n.Obj().Pkg().Path() != "time" || n.Obj().Name() != "Duration" {
+					return false
+				}
 				ss := w.Sources(o, an.FlowOpts{})
-				return len(ss.Ops) == 0 && ss.OnlyFrom(func(l an.Src) bool { return l.Kind == "field" && l.Name == "poller.requestInterval" }) && c28IsParamRoot(w, ss, allow)
+				return len(ss.Ops) == 0 && len(ss.Leaves) == 1 && ss.Leaves[0].Kind == "field" && c28IsParamRoot(w, ss, allow)
 			}
 			op := x.Op
 			switch {
@@ -1813,15 +2436,16 @@ func (e *c28Env) r4() {
 		if !reached[r.Block()] {
 			continue
 		}
-		v, known := c28RetBool(r)
-		switch {
-		case !known:
-			nOther++
-		case v:
-			nTrue++
-			truePos = r.Pos()
-		default:
-			nFalse++
+		for _, rb := range c28RetBools(r, reached) {
+			switch {
+			case !rb.known:
+				nOther++
+			case rb.val:
+				nTrue++
+				truePos = r.Pos()
+			default:
+				nFalse++
+			}
 		}
 	}
 	missing := []string{}
@@ -1836,9 +2460,9 @@ func (e *c28Env) r4() {
 	case nTrue > 0 && !unknownIf && len(missing) == 0:
 		c.Bad("C28.R4", cons, w.Pos(truePos), "with the peer already requested (seen), force == false and now-last < requestInterval the function can still return true: an unknown connected peer is sent a request on every poll tick")
 	case nTrue > 0 && !unknownIf:
-		c.Bad("C28.R4", cons, w.Pos(truePos), "allowRequest returns true without any test of "+strings.Join(missing, ", ")+" (map lookup of the peer / force parameter / now.Sub(last) against requestInterval): the request is not throttled to one per interval")
+		c.Bad("C28.R4", cons, w.Pos(truePos), "the throttle returns true without any test of "+strings.Join(missing, ", ")+" (map lookup of the peer / force parameter / now.Sub(last) against the request interval): the request is not throttled to one per interval")
 	case nTrue > 0:
-		c.Unknown("C28.R4", cons, w.Pos(truePos), "true is reachable only through a test the rule does not understand (recognised: seen, force, now.Sub(last) vs requestInterval; not recognised here: "+strings.Join(missing, ", ")+")")
+		c.Unknown("C28.R4", cons, w.Pos(truePos), "true is reachable only through a test the rule does not understand (recognised: seen, force, now.Sub(last) vs the interval field; not recognised here: "+strings.Join(missing, ", ")+")")
 	case nFalse == 0:
 		c.Unknown("C28.R4", cons, w.Pos(allow.Pos()), "no return reached under the assumption")
 	default:
@@ -1848,73 +2472,170 @@ func (e *c28Env) r4() {
 	var recs []ssa.Instruction
 	for _, b := range allow.Blocks {
 		for _, in := range b.Instrs {
-			if mu, ok := in.(*ssa.MapUpdate); ok && isLastMap(mu.Map) && isParam(mu.Key, 1) && isParam(mu.Value, 2) {
-				recs = append(recs, mu)
+			switch x := in.(type) {
+			case *ssa.MapUpdate:
+				if isLastMap(x.Map) && isParam(x.Key, peerIdx) && isParam(x.Value, nowIdx) {
+					recs = append(recs, x)
+				}
+			case *ssa.Call:
+				// a recording helper: record(peer, now) that performs the map update on the same field
+				if e.recordsAttempt(x, allow, peerIdx, nowIdx, lastField) {
+					recs = append(recs, x)
+				}
 			}
 		}
 	}
 	nT := 0
 	for _, r := range an.Returns(allow) {
-		if v, known := c28RetBool(r); known && v {
+		for _, rb := range c28RetBools(r, nil) {
+			if !rb.known || !rb.val {
+				continue
+			}
 			nT++
-			c.Decide(an.MustPassInstr(r, recs), "C28.R4", an0+" records the attempt", w.Pos(r.Pos()),
-				"every `return true` is preceded by lastRequestedAt[peer] = now",
-				"allowRequest can answer true without storing now for the peer: the next tick is allowed again, so the peer is requested every tick")
+			target := ssa.Instruction(r)
+			if rb.at != nil {
+				target = rb.at
+			}
+			if an.MustPassInstr(target, recs) {
+				c.OK("C28.R4", an0+" records the attempt", w.Pos(r.Pos()), "every `return true` is preceded by lastRequestedAt[peer] = now")
+			} else {
+				c.Bad("C28.R4", an0+" records the attempt", w.Pos(r.Pos()), "the throttle can answer true without storing now for the peer: the next tick is allowed again, so the peer is requested every tick")
+			}
 		}
 	}
-	c.AtLeast("C28.R4", "true returns of allowRequest", nT, 1)
+	return nT
+}
 
-	// --- senders
-	nSend := 0
-	for _, fn := range prodFuncs(w) {
-		if w.FnRel(fn) != "peersync" {
-			continue
+// recordsAttempt: call is a static in-module call that receives (peer, now)
+// and stores now under peer in the map field `field`.
+func (e *c28Env) recordsAttempt(call *ssa.Call, allow *ssa.Function, peerIdx, nowIdx int, field string) bool {
+	w := e.w
+	inf := w.Info(call)
+	if inf.Static == nil || !w.InModule(inf.Static) || inf.Static.Blocks == nil || field == "" {
+		return false
+	}
+	callee := inf.Static
+	argOf := func(i int) int { // index of the callee parameter bound to allow's parameter i
+		for k, a := range call.Call.Args {
+			if p, ok := c28Strip(a).(*ssa.Parameter); ok && i < len(allow.Params) && p == allow.Params[i] && k < len(callee.Params) {
+				return k
+			}
 		}
-		for _, ci := range an.Calls(fn) {
-			if w.Info(ci).Name != "dyn:poller.send" {
+		return -1
+	}
+	pk, nk := argOf(peerIdx), argOf(nowIdx)
+	if pk < 0 || nk < 0 {
+		return false
+	}
+	for _, b := range callee.Blocks {
+		for _, in := range b.Instrs {
+			mu, ok := in.(*ssa.MapUpdate)
+			if !ok {
 				continue
 			}
-			args := ci.Common().Args
-			if len(args) != 3 {
-				continue
-			}
-			ps := w.Sources(args[1], an.FlowOpts{})
-			fromListing := false
-			for _, l := range ps.Leaves {
-				if l.Kind == "call" && (l.Name == "func:(*peersync.poller).connectedPeers#0" || strings.HasPrefix(l.Name, "iface:peersync.Lightning.ListPeers")) {
-					fromListing = true
+			ss := w.Sources(mu.Map, an.FlowOpts{})
+			kp, okK := c28Strip(mu.Key).(*ssa.Parameter)
+			vp, okV := c28Strip(mu.Value).(*ssa.Parameter)
+			if len(ss.Leaves) == 1 && ss.Leaves[0].Kind == "field" && ss.Leaves[0].Name == field && okK && okV && kp == callee.Params[pk] && vp == callee.Params[nk] {
+				// unconditional in the helper: every return passes the update
+				all := len(an.Returns(callee)) > 0
+				for _, r := range an.Returns(callee) {
+					if !an.MustPassInstr(r, []ssa.Instruction{mu}) {
+						all = false
+					}
+				}
+				if all {
+					return true
 				}
 			}
-			cons := w.FuncName(fn) + " send"
-			if !fromListing {
-				c.Note("C28.R4", cons, w.Pos(ci.Pos()), "peer comes from "+strings.Join(ps.Names(), ", ")+" (known peers; paced by ShouldPoll, not by this clause)")
-				continue
-			}
-			nSend++
-			ok := false
-			for _, f := range w.FactsDominating(ci) {
-				if !an.AtomIs(f, "(*peersync.poller).allowRequest", true) {
-					continue
-				}
-				call, isC := f.Cond.(*ssa.Call)
-				if !isC || len(call.Call.Args) != 4 {
-					continue
-				}
-				samePeer := c28Strip(call.Call.Args[1]) == c28Strip(args[1])
-				ns := w.Sources(call.Call.Args[2], an.FlowOpts{})
-				nowOK := ns.OnlyFrom(func(l an.Src) bool { return l.Kind == "call" && l.Name == "func:time.Now#0" })
-				fs := w.Sources(call.Call.Args[3], an.FlowOpts{})
-				forceOK := fs.OnlyFrom(func(l an.Src) bool { return l.Kind == "param" })
-				if samePeer && nowOK && forceOK {
-					ok = true
-				}
-			}
-			c.Decide(ok, "C28.R4", cons, w.Pos(ci.Pos()),
-				"request to an unknown connected peer is dominated by allowRequest(peer, time.Now(), force) == true",
-				"a message is sent to a peer taken from the connected-peer listing without passing allowRequest(thatPeer, now, force): one request per poll tick instead of one per request interval. Facts: "+an.DescribeFacts(w.FactsDominating(ci)))
 		}
 	}
-	c.AtLeast("C28.R4", "sends to peers from the connected listing", nSend, 1)
+	return false
+}
+
+// c28RetBoolCase is one constant a bool-returning function hands out at a return.
+type c28RetBoolCase struct {
+	val, known bool
+	at         ssa.Instruction // the instruction that fixes the value (store to the result cell / jump of the selecting predecessor)
+}
+
+// c28RetBools resolves the booleans a return hands out: a constant, the last
+// store to the named-result cell (defer), or a phi of constants selected by the
+// predecessors (only predecessors in `within`, when given).
+func c28RetBools(r *ssa.Return, within map[*ssa.BasicBlock]bool) []c28RetBoolCase {
+	if len(r.Results) != 1 {
+		return []c28RetBoolCase{{}}
+	}
+	constOf := func(v ssa.Value) (bool, bool) {
+		cv, ok := v.(*ssa.Const)
+		if !ok || cv.Value == nil || cv.Value.Kind() != constant.Bool {
+			return false, false
+		}
+		return constant.BoolVal(cv.Value), true
+	}
+	v := r.Results[0]
+	if ld, ok := v.(*ssa.UnOp); ok && ld.Op == token.MUL {
+		if al, ok := ld.X.(*ssa.Alloc); ok {
+			// last store to the cell in this block before the load
+			var last *ssa.Store
+			for _, in := range r.Block().Instrs {
+				if in == ssa.Instruction(ld) {
+					break
+				}
+				if st, ok := in.(*ssa.Store); ok && st.Addr == al {
+					last = st
+				}
+			}
+			if last != nil {
+				if b, ok := constOf(last.Val); ok {
+					return []c28RetBoolCase{{val: b, known: true, at: last}}
+				}
+				v = last.Val
+			} else {
+				// the cell was set in the predecessors
+				var out []c28RetBoolCase
+				for _, pred := range r.Block().Preds {
+					if within != nil && !within[pred] {
+						continue
+					}
+					var ls *ssa.Store
+					for _, in := range pred.Instrs {
+						if st, ok := in.(*ssa.Store); ok && st.Addr == al {
+							ls = st
+						}
+					}
+					if ls == nil {
+						out = append(out, c28RetBoolCase{})
+						continue
+					}
+					b, ok := constOf(ls.Val)
+					out = append(out, c28RetBoolCase{val: b, known: ok, at: ls})
+				}
+				if len(out) > 0 {
+					return out
+				}
+				return []c28RetBoolCase{{}}
+			}
+		}
+	}
+	if b, ok := constOf(v); ok {
+		return []c28RetBoolCase{{val: b, known: true}}
+	}
+	if ph, ok := v.(*ssa.Phi); ok && ph.Block() == r.Block() {
+		var out []c28RetBoolCase
+		for i, ed := range ph.Edges {
+			pred := r.Block().Preds[i]
+			if within != nil && !within[pred] {
+				continue
+			}
+			b, ok := constOf(ed)
+			out = append(out, c28RetBoolCase{val: b, known: ok, at: pred.Instrs[len(pred.Instrs)-1]})
+		}
+		if len(out) > 0 {
+			return out
+		}
+	}
+	return []c28RetBoolCase{{}}
 }
 
 // c28IsParamRoot: every field leaf hangs off the receiver parameter of fn.
@@ -1950,7 +2671,7 @@ func (e *c28Env) r5() {
 	}
 	const mine = "⟨PS.PeerSync.version.Version.value⟩"
 	eqRe := regexp.MustCompile(`^op\(==;(⟨[^⟨⟩]*⟩);(⟨[^⟨⟩]*⟩)\)$`)
-	nEq := 0
+	nEq, nBad := 0, 0
 	for _, t := range res[0].sorted() {
 		if t == "c:false" {
 			continue
@@ -1965,7 +2686,7 @@ func (e *c28Env) r5() {
 		}
 		// the other operand is the version stored for the peer: it comes out of the
 		// record that the store decoded (ext:…json.Unmarshal… .peerRecord.Version)
-		if other != "" && strings.HasPrefix(other, "⟨ext:") && strings.HasSuffix(other, ".peerRecord.Version⟩") {
+		if other != "" && strings.HasPrefix(other, "⟨ext:") && strings.HasSuffix(other, "ersion⟩") {
 			nEq++
 			c.OK("C28.R5", name+" positive answer", w.Pos(fn.Pos()), "true only as storedRecord.Version == ps.version.value")
 			continue
@@ -1975,10 +2696,19 @@ func (e *c28Env) r5() {
 			c.Unknown("C28.R5", name+" positive answer", w.Pos(fn.Pos()), "this node's version is compared for equality with "+other+", which the rule cannot identify as the stored capability version")
 			continue
 		}
-		c.Bad("C28.R5", name+" positive answer", w.Pos(fn.Pos()), "the answer can be "+t+", which is not the equality of the stored capability version with this node's version")
+		// positively wrong: an ordering / inequality between the two versions, or an
+		// answer that does not depend on this node's version at all
+		cmp := regexp.MustCompile(`^op\((!=|<|>|<=|>=);`).MatchString(t) && strings.Contains(t, mine)
+		if cmp || !strings.Contains(t, mine) {
+			nBad++
+			c.Bad("C28.R5", name+" positive answer", w.Pos(fn.Pos()), "the answer can be "+t+", which is not the equality of the stored capability version with this node's version")
+			continue
+		}
+		nEq++
+		c.Unknown("C28.R5", name+" positive answer", w.Pos(fn.Pos()), "the answer "+t+" involves this node's version in a form the rule does not interpret")
 	}
-	if nEq == 0 {
-		c.Bad("C28.R5", name+" positive answer", w.Pos(fn.Pos()), "no result is the equality of the stored capability version with this node's version: "+res[0].String())
+	if nEq == 0 && nBad == 0 {
+		c.Bad("C28.R5", name+" positive answer", w.Pos(fn.Pos()), "the function never answers with the equality of the stored capability version with this node's version: "+res[0].String())
 	}
 	// the peer looked up is the one asked for
 	gs := []*ssa.Call{}
@@ -1996,7 +2726,11 @@ func (e *c28Env) r5() {
 			p, ok := c28Strip(l.Call.Call.Args[0]).(*ssa.Parameter)
 			return ok && p == fn.Params[1]
 		})
-		c.Decide(okID, "C28.R5", name+" looked-up peer", w.Pos(gs[0].Pos()), "the stored state of the requested peer id is read", "the peer whose state is read is not NewPeerID(<the peerID argument>)")
+		if okID {
+			c.OK("C28.R5", name+" looked-up peer", w.Pos(gs[0].Pos()), "the stored state of the requested peer id is read")
+		} else {
+			c.Unknown("C28.R5", name+" looked-up peer", w.Pos(gs[0].Pos()), "cannot establish that the peer whose state is read is NewPeerID(<the peerID argument>): "+strings.Join(ids.Names(), ", "))
+		}
 	} else {
 		c.Unknown("C28.R5", name+" looked-up peer", w.Pos(fn.Pos()), "expected one GetPeerState call")
 	}
@@ -2030,9 +2764,14 @@ func (e *c28Env) r5() {
 			vals = it2.selAll(fr.eval(st.Val), "Version.value")
 		})
 		got, single := vals.single()
-		c.Decide(single && got == want, "C28.R5", "writer of PeerSync.version in "+w.FuncName(f), w.Pos(st.Pos()),
-			"this node's version is PEERSWAP_PROTOCOL_VERSION ("+strings.TrimPrefix(want, "c:")+")",
-			"PeerSync.version is set to "+vals.String()+", not to swap.PEERSWAP_PROTOCOL_VERSION ("+strings.TrimPrefix(want, "c:")+")")
+		switch {
+		case single && got == want:
+			c.OK("C28.R5", "writer of PeerSync.version in "+w.FuncName(f), w.Pos(st.Pos()), "this node's version is PEERSWAP_PROTOCOL_VERSION ("+strings.TrimPrefix(want, "c:")+")")
+		case single && strings.HasPrefix(got, "c:"):
+			c.Bad("C28.R5", "writer of PeerSync.version in "+w.FuncName(f), w.Pos(st.Pos()), "PeerSync.version is set to "+vals.String()+", not to swap.PEERSWAP_PROTOCOL_VERSION ("+strings.TrimPrefix(want, "c:")+")")
+		default:
+			c.Unknown("C28.R5", "writer of PeerSync.version in "+w.FuncName(f), w.Pos(st.Pos()), "cannot evaluate the version this node is given to a constant: "+vals.String())
+		}
 	}
 	c.AtLeast("C28.R5", "writers of PeerSync.version", nW, 1)
 }
